@@ -58,8 +58,8 @@ type Prog struct {
 	CG      *callgraph.Graph
 	AllFns  map[*ssa.Function]bool
 
-	fileOf map[*ast.File]*packages.Package
-	A      *Anchors
+	fileOf  map[*ast.File]*packages.Package
+	A       *Anchors
 	Overlay map[string][]byte
 }
 
